@@ -156,7 +156,7 @@ class G:
         if k == 'rangeassign':
             lv = self.vars_of('list')
             if not lv: return ['print(7)']
-            return [r.choice(['%s[0:1] = [%s]', '%s[:1] = [%s]', '%s[0:1] = "%s"[0:1]']) % (r.choice(lv), self.expr('int', 2) if r.random() < 2 else 'z')][:1] if r.random() < 0.7 else ['%s[0:1] = "z"' % r.choice(lv)]
+            return [r.choice(['%s[0:1] = [%s]', '%s[:1] = [%s]', '%s[0:1] = [%s]']) % (r.choice(lv), self.expr('int', 2) if r.random() < 2 else 'z')][:1] if r.random() < 0.7 else ['%s[0:1] = "z"' % r.choice(lv)]
         if k == 'spreadcall':
             fs = [f for f in self.fns if f[1] and all(kk == 'int' for kk in f[1])]
             if not fs: return ['print(8)']
